@@ -32,10 +32,14 @@ char *reg_get(int c, int *lnmode)
 	}
 	if (c == '#') {
 		snprintf(linno, sizeof(linno), "%d", xrow + 1);
+		if (lnmode != NULL)
+			*lnmode = 0;
 		return linno;
 	}
 	if (c == '^') {
 		snprintf(colno, sizeof(colno), "%d", xoff + 1);
+		if (lnmode != NULL)
+			*lnmode = 0;
 		return colno;
 	}
 	return reg_getraw(c, lnmode);
